@@ -124,7 +124,7 @@ def run(ctx):
             r = gen_run(rng, len(var_names[si]), nnum[si])
             # bounds on the numeric base variables
             for nm in var_names[si][:nnum[si]]:
-                if rng.random() < 0.5:
+                if rng.random() < 0.5 and not ctx.get("no_bounds"):
                     b = {}
                     if rng.random() < 0.7:
                         b["ub"] = rng.choice([1.5, 2.0, 4.5, 0.5])
@@ -241,6 +241,18 @@ def run(ctx):
             "samples": samples, "distribution": dist,
             "layers": {"L1 trajectory log (exact, in Coq)": len(coq), "probe: time / bounds / spike bookkeeping": dist["runs"]},
             "corr_mismatches": corr_mismatches, "corr_errors": corr_errors, "probe_failures": probe_failures}
+
+
+def search(ctx, res):
+    """extended search when an obligation/correspondence broke without a probe failure: bound-free runs
+    (for which the spike bookkeeping probe is exact), further seeds"""
+    out = []
+    for k in (1, 2):
+        r = run({"tier": "quick", "seed": ctx["seed"] * 10 + k, "prop": PROP, "no_bounds": True})
+        out += r["probe_failures"]
+        if out:
+            break
+    return out
 
 
 def replay(payload):
